@@ -53,16 +53,25 @@ def jobs(tier, seed):
             for dim in (1, 2, 3):
                 for case in ('complex-x', 'complex-f', 'both'):
                     out.append(('%s-%s-d%d-%s' % (cls, method, dim, case), dict(kind='cx', cls=cls, method=method, dim=dim, case=case)))
+            # every derivative order the method accepts (the complex rule reads f(x0) for n % 4 == 0) and full_output=True
+            for case in ('complex-x', 'complex-f'):
+                for fo in (False, True):
+                    ns = ((1,) if cls != 'Derivative' else ((1, 2, 3, 4, 5, 8) if method == 'complex' else (1, 2)))
+                    for n in ns:
+                        if n == 1 and not fo:
+                            continue
+                        out.append(('%s-%s-n%d-%s-%s' % (cls, method, n, case, 'fo' if fo else 'nofo'),
+                                    dict(kind='cx', cls=cls, method=method, dim=2 if cls != 'Derivative' else 1, case=case, n=n, fo=fo)))
     out.append(('size-mismatch', dict(kind='size', cls='', method='', dim=0, case='')))
     out.append(('length-guards', dict(kind='lengths', cls='', method='', dim=0, case='')))
     return out
 
 
-def run_job(job, kind, cls, method, dim, case):
+def run_job(job, kind, cls, method, dim, case, n=1, fo=False):
     if kind == 'xh':
         return xhair.absorb(job, 'guards_spec.py', 'C11:xh')
     if kind == 'cx':
-        return complex_misuse(job, cls, method, dim, case)
+        return complex_misuse(job, cls, method, dim, case, n, fo)
     if kind == 'size':
         return size_mismatch(job)
     return length_guards(job)
@@ -89,7 +98,7 @@ def _user_fun(cls, dim, fi):
     return f
 
 
-def complex_misuse(job, cls, method, dim, case):
+def complex_misuse(job, cls, method, dim, case, n=1, fo=False):
     nd = cm.nd_mods()['nd']
     xr = [0.5, -0.75, 1.25][:dim]
     xi = [sn.real_var('xi%d' % j) for j in range(dim)]
@@ -111,10 +120,14 @@ def complex_misuse(job, cls, method, dim, case):
     if cls == 'Derivative' and dim == 1:
         x = x[0] if isinstance(x, np.ndarray) else x
 
+    extra_kw = dict(full_output=fo)
+    if cls == 'Derivative':
+        extra_kw['n'] = n
+
     def harness():
         with tr.traced(), sn.abstract_division(products=True), cm.quiet():
-            gen = nd.MinStepGenerator(base_step=0.25, step_ratio=2.0, num_steps=3, step_nom=1.0)
-            return getattr(nd, cls)(f, step=gen, method=method)(x)
+            gen = nd.MinStepGenerator(base_step=0.25, step_ratio=2.0, num_steps=3 + (n - 1) // 2, step_nom=1.0)
+            return getattr(nd, cls)(f, step=gen, method=method, **extra_kw)(x)
     ex = sn.Explorer(harness, assumptions=assume, max_paths=200, timeout_ms=20000, catch=(Exception,))
     paths = list(ex.paths())
     job.absorb_explorer(ex)
@@ -135,9 +148,9 @@ def complex_misuse(job, cls, method, dim, case):
     # twin: the real-input path can return (the assumptions are what forces the error)
     def harness_ok():
         with tr.traced(), sn.abstract_division(products=True), cm.quiet():
-            gen = nd.MinStepGenerator(base_step=0.25, step_ratio=2.0, num_steps=3, step_nom=1.0)
+            gen = nd.MinStepGenerator(base_step=0.25, step_ratio=2.0, num_steps=3 + (n - 1) // 2, step_nom=1.0)
             xx = np.array(xr) if not (cls == 'Derivative' and dim == 1) else xr[0]
-            return getattr(nd, cls)(_user_fun(cls, dim, 0.0), step=gen, method=method)(xx)
+            return getattr(nd, cls)(_user_fun(cls, dim, 0.0), step=gen, method=method, **extra_kw)(xx)
     ok = [q for q in sn.Explorer(harness_ok, max_paths=50, catch=(Exception,)).paths() if q.exc is None]
     if ok:
         job.twins_ok += 1
@@ -256,6 +269,9 @@ def replay(cex):
     cfg = cex['config']
     if kind == 'cx':
         cls, method, dim, case = cfg['cls'], cfg['method'], cfg['dim'], cfg['case']
+        kw = dict(full_output=cfg.get('fo', False))
+        if cls == 'Derivative':
+            kw['n'] = cfg.get('n', 1)
         asg = cm.assignment_from_model(cex.get('model', {}))
         xr = [0.5, -0.75, 1.25][:dim]
         xi = [float(asg.get('xi%d' % j, 0)) for j in range(dim)]
@@ -277,12 +293,14 @@ def replay(cex):
         xx = x[0] if (cls == 'Derivative' and dim == 1) else x
         try:
             with cm.quiet():
-                r = getattr(nd, cls)(f, method=method)(xx)
+                r = getattr(nd, cls)(f, method=method, **kw)(xx)
+                if kw['full_output']:
+                    r = r[0]
         except ValueError:
             return False, 'raises ValueError'
         except Exception as e:  # noqa
             return True, '%s(method=%s) with %s raises %s (not ValueError): %s' % (cls, method, case, type(e).__name__, e)
-        return True, '%s(method=%s) with %s returned %r instead of raising ValueError' % (cls, method, case, np.ravel(r)[:3])
+        return True, '%s(method=%s, %s) with %s returned %r instead of raising ValueError' % (cls, method, kw, case, np.ravel(r)[:3])
     if kind in ('size', 'len'):
         return True, 'guard missing: %s' % {k: v for k, v in cex.items() if k in ('key', 'm', 'n', 'method', 'raised', 'exc')}
     return None, 'unknown kind'
